@@ -140,7 +140,12 @@ func TestLossySubscribersSideBySide(t *testing.T) {
 				hist = append(hist, "delete("+id+")")
 			} else {
 				val := fmsg(next)
-				werr, returned = guarded(func() error { _, err := c.Update(id, val, resource.WithCreateIfAbsent()); return err })
+				wopts := []resource.WriteOption{resource.WithCreateIfAbsent()}
+				if rapid.IntRange(0, 2).Draw(t, "writeTime") == 0 {
+					// the caller chooses the write time; it need not move forward
+					wopts = append(wopts, resource.WithWriteTime(time.Unix(int64(1000+rapid.IntRange(-500, 500).Draw(t, "at")), 0)))
+				}
+				werr, returned = guarded(func() error { _, err := c.Update(id, val, wopts...); return err })
 				store[id] = next
 				hist = append(hist, fmt.Sprintf("write(%s,%d)", id, next))
 				next++
